@@ -197,6 +197,9 @@ def oracle_C02(result):
             if out["k"] == "Val" and is_gen(out["v"]) and vf.get(key) != out["v"][2]:
                 bad.append(("C02:factory-leak", f"step {i}: lookup of {key} in context {op['c']} was served by "
                             f"factory {out['v'][2]}, which is not visible there (visible: {vf.get(key)})", i))
+            if out["k"] == "Err" and out["e"].startswith("Other:") and key and key[0] < 89:
+                bad.append(("C02:lookup-raised", f"step {i}: lookup of {key} in context {op['c']} raised "
+                            f"{out['e'][6:]}: what a context offers does not depend on which context is current", i))
             if (out["k"] == "NoneVal" or (out["k"] == "Err" and out["e"] == "NotFound")) and key in vf:
                 bad.append(("C02:factory-invisible", f"step {i}: lookup of {key} in context {op['c']} found "
                             f"nothing although factory {vf[key]} is visible there", i))
